@@ -17,8 +17,13 @@ download side
   snapshot = `<STATE> off=<offset> bt=<bytes_transfered> len=<file size | - while downloading> closed=<0|1> w=<write sizes of this op | ->`
 upload side
   `ul <file-bytes>`              new upload of that file                                  → usnapshot
-  `ubegin <offset> <0|1>` `chunk` `werr` `closed` `rerr`                                  → usnapshot
-  usnapshot = `<STATE> off=<offset> bt=<bytes_transfered> sent=<n> hs=<fnv of sent> puf=<PeerUploadFailed sent>`
+  `ubegin <offset> <0|1>` `chunk` `werr` `closed` `rerr` `told` `untold` `requeue`         → usnapshot
+                                 (`ubegin`: the offset goes through the wire — `Wire.sendOffset`, `Wire.recvOffset`;
+                                 a number `uint64(...).serialize()` raises for → `overflow`)
+  usnapshot = `<STATE> off=<offset> bt=<bytes_transfered> sent=<n> hs=<fnv of sent> puf=<PeerUploadFailed sent> ntf=<0|1 being sent>`
+hand-shake values
+  `hs ticket|offset <value> <k> <trail>`   the sender writes the value, `<trail>` more bytes follow; the first `<k>` bytes
+                                 of all that have arrived → `waiting` | `val=<number read> left=<bytes left in the stream>`
 -/
 open AioslskVerif.FileXfer
 
@@ -41,7 +46,7 @@ def snap (d : Dl) (w : List Nat) : String :=
   s!"{d.st.name} off={d.offset} bt={d.bt} len={len} closed={b01 d.closed} w={joinNat w}"
 
 def usnap (u : Ul) : String :=
-  s!"{u.st.name} off={u.offset} bt={u.bt} sent={u.sent.length} hs={fnv u.sent} puf={u.puf}"
+  s!"{u.st.name} off={u.offset} bt={u.bt} sent={u.sent.length} hs={fnv u.sent} puf={u.puf} ntf={b01 u.notifying}"
 
 structure DSt where
   d : Dl
@@ -140,8 +145,27 @@ def handle (s : DSt) (line : String) : DSt × String :=
     | none => (s, "bad-op")
   | ["ubegin", o, l] =>
     match o.toNat?, l.toNat? with
-    | some o, some l => let u := ustep s.F s.u (.begin o (l != 0)); ({ s with u := u }, usnap u)
+    | some o, some l =>
+      if o ≥ 2 ^ (8 * Wire.offsetSendBytes) then (s, "overflow") else
+      match Wire.recvOffset (Wire.sendOffset o) with
+      | some (o', _) => let u := ustep s.F s.u (.begin o' (l != 0)); ({ s with u := u }, usnap u)
+      | none => (s, "waiting")
     | _, _ => (s, "bad-op")
+  | ["told"] => let u := ustep s.F s.u .told; ({ s with u := u }, usnap u)
+  | ["untold"] => let u := ustep s.F s.u .untold; ({ s with u := u }, usnap u)
+  | ["requeue"] => let u := ustep s.F s.u .requeue; ({ s with u := u }, usnap u)
+  | ["hs", what, v, k, trail] =>
+    match v.toNat?, k.toNat?, parseBytes trail with
+    | some v, some k, some t =>
+      let (bytes, recv) := if what = "ticket" then (Wire.sendTicket v, Wire.recvTicket)
+                           else (Wire.sendOffset v, Wire.recvOffset)
+      let width := if what = "ticket" then Wire.ticketSendBytes else Wire.offsetSendBytes
+      if what ≠ "ticket" ∧ what ≠ "offset" then (s, "bad-op")
+      else if v ≥ 2 ^ (8 * width) then (s, "overflow")
+      else match recv ((bytes ++ t).take k) with
+        | some (n, rest) => (s, s!"val={n} left={rest.length}")
+        | none => (s, "waiting")
+    | _, _, _ => (s, "bad-op")
   | ["chunk"] => let u := ustep s.F s.u .chunk; ({ s with u := u }, usnap u)
   | ["werr"] => let u := ustep s.F s.u .werr; ({ s with u := u }, usnap u)
   | ["closed"] => let u := ustep s.F s.u .closed; ({ s with u := u }, usnap u)
